@@ -56,6 +56,16 @@ def c16_diff(ext):
 def emit_findings(ctx, ext):
     """Generated/Findings.lean: the recorded (predicate, opcode) gaps that are still present in the tree."""
     gaps = []
+    if ext is None:
+        # no extraction in this run: keep the gaps recorded by the last run that had one (C16 / setup), so that the
+        # modules depending on this file are not invalidated by every check that does not extract
+        try:
+            import re
+            m = re.search(r"def c16KnownGaps : List \(Nat × Nat\) := \[(.*)\]", open(C.GEN + "/Findings.lean").read())
+            if m and m.group(1).strip():
+                gaps = re.findall(r"\(\d+, \d+\)", m.group(1))
+        except OSError:
+            pass
     if ext is not None:
         kn = known("C16")
         for i, o, name, exp, obs in c16_diff(ext):
